@@ -71,7 +71,7 @@ def run(ctx, rep) -> None:
     d = prog.module(JH).assigns.get("DEFAULT_MAX_JUMPS")
     rep.check(isinstance(d, ast.Constant) and d.value == 10, "C15.R2", "DEFAULT_MAX_JUMPS = 10", norm(d) if d is not None else "missing", "src/stabilize/handlers/jump_to_stage/handler.py", getattr(d, "lineno", 0), disc="default")
     t = norm(on).replace("'", '"')
-    ok = "new_jump_count = jump_count + 1" in t and 'target_stage.context["_jump_count"] = new_jump_count' in t and '"_jump_count": new_jump_count' in t
+    ok = "new_jump_count = jump_count + 1" in t and ('target_stage.context["_jump_count"] = new_jump_count' in t or 'target_context_updates["_jump_count"] = new_jump_count' in t) and '"_jump_count": new_jump_count' in t
     rep.check(ok, "C15.R2", "the stored count is count + 1, on the target and on the source", "new_jump_count = jump_count + 1 written to target context and source updates", "src/stabilize/handlers/jump_to_stage/handler.py", on.lineno, disc="increment")
     # the target's context updates are applied AFTER its reset inside the mutation
     mt = [n for n in ast.walk(on) if isinstance(n, ast.FunctionDef) and n.name == "mutate_target"]
